@@ -270,6 +270,22 @@ func runC16(w *kit.World, sc c16Scenario, faults []kit.Fault) c16Outcome {
 	}
 	if len(diffs) > 0 {
 		problem("resync.cache-differs", "after reconnecting, the cache does not converge to the database:\n%s", strings.Join(diffs, "\n"))
+	} else if db, err := srv.Snapshot(); err == nil {
+		var established []monSpec
+		for i, ms := range sc.Monitors {
+			if out.Established[i] {
+				established = append(established, ms)
+			}
+		}
+		if ip := c16IndexProblems(w, c, db, established); len(ip) > 0 {
+			// the rows converged: retry once after a barrier in case a notification was in flight
+			directTxn(kit.Op{Op: "insert", Table: "T2", Row: kit.Row{"v": kit.Scalar(kit.Real(-2))}})
+			if db2, err := srv.Snapshot(); err == nil {
+				if ip = c16IndexProblems(w, c, db2, established); len(ip) > 0 && len(compareAll(w, c, db2, established)) == 0 {
+					problem("resync.index-stale", "after reconnecting the rows converged but the cache indexes disagree with them:\n%s", strings.Join(ip, "\n"))
+				}
+			}
+		}
 	}
 	// markers
 	db, _ := srv.Snapshot()
@@ -307,12 +323,60 @@ type c16Case struct {
 	Problems []string    `json:"problems,omitempty"`
 }
 
+// c16ClientIndexes: client indexes on T0.marker and T1.name, so that a resynchronised
+// cache can also be checked for stale index entries.
+var c16ClientIndexes = map[string][]model.ClientIndex{
+	"T0": {{Columns: []model.ColumnKey{{Column: "marker"}}}},
+	"T1": {{Columns: []model.ColumnKey{{Column: "name"}}}},
+}
+
+// c16IndexProblems compares the client indexes of the monitored tables with a scan, after
+// the cache contents were found equal to db.
+func c16IndexProblems(w *kit.World, c client.Client, db kit.State, monitors []monSpec) []string {
+	var out []string
+	for _, ms := range monitors {
+		for tn := range ms.Tables {
+			cis, ok := c16ClientIndexes[tn]
+			if !ok || c.Cache() == nil || c.Cache().Table(tn) == nil {
+				continue
+			}
+			cfg := indexCfg{}
+			for _, ci := range cis {
+				var cks []c05ColKey
+				for _, ck := range ci.Columns {
+					cks = append(cks, c05ColKey{Col: ck.Column})
+				}
+				cfg.Client = append(cfg.Client, cks)
+			}
+			// the contents were compared already (with the allowances compareMonitor makes for
+			// plain 'monitor' monitors): the indexes are compared with the rows the cache holds
+			cached, err := w.RowsFromModels(tn, c.Cache().Table(tn).Rows())
+			if err != nil {
+				out = append(out, fmt.Sprintf("table %s: %v", tn, err))
+				continue
+			}
+			if m := checkCacheIndexes(w, *w.S.Table(tn), cfg, c.Cache().Table(tn), cached, nil); m != nil {
+				out = append(out, fmt.Sprintf("table %s: %s", tn, m.Error()))
+			}
+		}
+	}
+	return out
+}
+
+func compareAll(w *kit.World, c client.Client, db kit.State, monitors []monSpec) []string {
+	var out []string
+	for _, ms := range monitors {
+		out = append(out, compareMonitor(w, c, db, ms)...)
+	}
+	return out
+}
+
 func c16World(tb testing.TB) *kit.World {
 	s, err := parseSchemaJSON([]byte(c16Schema))
 	if err != nil {
 		tb.Fatalf("schema: %v", err)
 	}
-	w, err := kit.BuildWorld(s, nil)
+	w, err := kit.BuildWorld(s, c16ClientIndexes)
 	if err != nil {
 		tb.Fatalf("world: %v", err)
 	}
@@ -564,6 +628,11 @@ func TestC16ReconnectWindow(t *testing.T) {
 		}
 		if len(diffs) > 0 {
 			fail("resync.cache-differs", "transactions committed while restarted monitor %d of %d was between reply and application are missing from the cache 20 s later:\n%s", kase.ParkAt, len(sc.Monitors), strings.Join(diffs, "\n"))
+		}
+		if db, err := srv.Snapshot(); err == nil {
+			if ip := c16IndexProblems(w, c, db, sc.Monitors); len(ip) > 0 && len(compareAll(w, c, db, sc.Monitors)) == 0 {
+				fail("resync.index-stale", "the rows converged but the cache indexes disagree with them:\n%s", strings.Join(ip, "\n"))
+			}
 		}
 		kit.Record("C16", "window|"+string(kit.MustJSON(kase)), kase.ParkAt > 0, func() interface{} { return kase },
 			"reconnect-window", fmt.Sprintf("window:monitors:%d:parkat:%d", len(sc.Monitors), kase.ParkAt))
@@ -927,6 +996,11 @@ func TestC16Inconsistent(t *testing.T) {
 		}
 		if len(diffs) > 0 {
 			fail("resync.cache-differs", "20 s after receiving notifications it could not apply (%d tampered) the client has not resynchronised:\n%s", atomic.LoadInt32(&tampered), strings.Join(diffs, "\n"))
+		}
+		if db, err := srv.Snapshot(); err == nil {
+			if ip := c16IndexProblems(w, c, db, sc.Monitors); len(ip) > 0 && len(compareAll(w, c, db, sc.Monitors)) == 0 {
+				fail("resync.index-stale", "the rows converged but the cache indexes disagree with them:\n%s", strings.Join(ip, "\n"))
+			}
 		}
 		kit.Record("C16", "inconsistent|"+string(kit.MustJSON(kase)), atomic.LoadInt32(&tampered) > 0, func() interface{} { return kase },
 			"inconsistent-notifications", fmt.Sprintf("inconsistent:tampered:%d", atomic.LoadInt32(&tampered)))
